@@ -268,6 +268,65 @@ def sql_stage(ctx: Ctx, live, tag="C10"):
         ctx.violation("SQL identity obligations could not be evaluated", {"broken": "C10_sql", "errors": errs[:3]}, found_input=False)
 
 
+R_HEADER = """From Coq Require Import List Bool.
+From Splinkv Require Import Base.TV Model.Blocking Model.Scoring Model.EntryPoints.
+Import ListNotations.
+(* (tf_ column supplied by the record, tf table cached, concat table cached, branch found in the emitted SQL) *)
+Definition route_ok (c : bool * bool * bool * route_kind) : bool :=
+  match c with (s, t, cc, k) => route_kind_eqb k (route_priority s t cc) end.
+"""
+
+
+def route_stage(ctx: Ctx):
+    """T: the branch of _join_new_table_to_df_concat_with_tf_sql chosen for every cache state = route_priority"""
+    import itertools
+    rng = ctx.rng
+    spec = None
+    for _ in range(200):
+        spec = G.gen_spec(rng, "T", allow_inf=False, ncmp=rng.choice([2, 3]))
+        if len(spec["tf_cols"]) >= 2:
+            break
+    terms, metas = [], []
+    try:
+        for dialect in ("duckdb", "sqlite"):
+            so = G.settings_creator(spec, dialect=dialect).get_settings(dialect)
+            tfc = [c.unquote().name for c in so._term_frequency_columns][:2]
+            from splink.internals.term_frequencies import colname_to_tf_tablename
+            tname = {c.unquote().name: colname_to_tf_tablename(c) for c in so._term_frequency_columns}
+            for concat in (False, True):
+                for st in itertools.product(itertools.product((False, True), repeat=2), repeat=len(tfc)):
+                    cached = (["__splink__df_concat_with_tf"] if concat else []) + [tname[c] for c, (sup, tab) in zip(tfc, st) if tab]
+                    # the remaining tf columns of the model: supplied by the record
+                    others = [c for c in tname if c not in tfc]
+                    supplied = [c for c, (sup, tab) in zip(tfc, st) if sup] + others
+                    routes = TS.tf_join_routes(so, so._sqlglot_dialect, cached, supplied)
+                    for c, (sup, tab) in zip(tfc, st):
+                        terms.append(f"({coq_bool(sup)}, {coq_bool(tab)}, {coq_bool(concat)}, {routes[c]})")
+                        metas.append({"dialect": dialect, "column": c, "supplied": sup, "tf_table_cached": tab,
+                                      "concat_with_tf_cached": concat, "branch_in_sql": routes[c]})
+            # find_matches passes no input table: supplied tf_ columns are not detected there
+            routes = TS.tf_join_routes(so, so._sqlglot_dialect, ["__splink__df_concat_with_tf"], [], with_input_table=False)
+            for c in tfc:
+                terms.append(f"(false, false, true, {routes[c]})")
+                metas.append({"dialect": dialect, "column": c, "supplied": False, "tf_table_cached": False,
+                              "concat_with_tf_cached": True, "branch_in_sql": routes[c], "no_input_table": True})
+    except TS.Untranslatable as ex:
+        ctx.obligation("translate the TF join of ad-hoc records", False, str(ex))
+        ctx.violation("the TF join for ad-hoc records no longer matches any shape the translator understands: " + str(ex),
+                      {"broken": "translator c10_sql.tf_join_routes", "why": str(ex)}, {"untranslatable": True, "tf_join": True}, found_input=False)
+        return
+    bad, errs = ctx.eval_cases("C10_route", R_HEADER, terms, "route_ok", shard=400, timeout=300)
+    ctx.obligations += len(terms)
+    ctx.discharged += (len(terms) - len(bad)) if not errs else 0
+    ctx.cov["tf_route_obligations"] = len(terms)
+    ctx.cov.setdefault("translated_sources", {})["splink/internals/term_frequencies.py"] = git_blob(REPO / "splink/internals/term_frequencies.py")
+    if bad or errs:
+        ctx.violation("TF lookup priority for ad-hoc records differs from the model (own tf_ column, cached tf table, "
+                      "select distinct from the cached concat table, NULL)",
+                      {"broken": "TF route obligation C10_route", "failing_states": [metas[i] for i in bad[:6]], "errors": errs[:2]},
+                      {"skeleton": True, "tf_route": True}, found_input=False)
+
+
 def features(case, extra):
     f = {"backend": case["backend"], "link_type": case["spec"]["link_type"], "has_tf": bool(case["spec"]["tf_cols"]), "registered_lookup": bool(case["lookups"])}
     f.update(extra)
@@ -403,6 +462,7 @@ def run(ctx: Ctx):
         for e in res["entries"]:
             ctx.hist("entry", e[0])
     sql_stage(ctx, live)
+    route_stage(ctx)
     ctx.cov["cross_entry_comparisons"] = nagree
     ctx.obligation(f"entry points agree with predict() on gamma and match weight ({nagree} row pairs)", not disagreements)
     report(ctx, *out)
